@@ -667,7 +667,9 @@ impl<Backing : AsRef<[u32]> + AsMut<[u32]>> DrawTarget<Backing> {
 
     /// Draws `src` through an untransformed `mask` positioned at `x`, `y` in device space
     pub fn mask(&mut self, src: &Source, x: i32, y: i32, mask: &Mask) {
-        self.composite(src, Some(&mask.data), intrect(x, y, mask.width, mask.height), intrect(x, y, mask.width, mask.height), BlendMode::SrcOver, 1.);
+        // the mask covers [x, x + width) x [y, y + height) in device space
+        let mask_rect = intrect(x, y, x + mask.width, y + mask.height);
+        self.composite(src, Some(&mask.data), mask_rect, mask_rect, BlendMode::SrcOver, 1.);
     }
 
     /// Strokes `path` with `style` and fills the result with `src`
